@@ -239,6 +239,12 @@ class Run:
             elif kind in ('soon_ok', 'soon_raise'):
                 proc.call_soon(programs._make_cb(proc, 'raise' if kind == 'soon_raise' else 'ok', arg))
                 ret = None
+            elif kind == 'abort_task':
+                # fault: whoever drives the process gives up (e.g. asyncio.wait_for timed out) -> the stepping task is cancelled
+                ret = self.task.cancel() if self.task is not None else None
+            elif kind == 'restart_task':
+                self.task = self.drv.loop.create_task(proc.step_until_terminated())
+                ret = None
             elif kind == 'step_again':
                 t2 = self.drv.loop.create_task(proc.step_until_terminated())
                 self.extra_tasks.append(t2)
@@ -394,6 +400,8 @@ class Run:
     def _owed(self, script):
         """What the scenario still owes the process at a quiescent point (None = nothing)."""
         proc = self.proc
+        if self.task is not None and self.task.done() and not proc.has_terminated():
+            return ['restart_task']  # the stepping task was aborted: somebody steps the process again
         if proc.paused:
             return ['play']
         if proc.state == ps.ProcessState.WAITING:
